@@ -403,7 +403,7 @@ func c20Request(c *Case, s *c20Server, line, verb, path string, kv map[string]st
 		hdr.Set("Content-Encoding", "br")
 	case kind == "toolarge" || kind == "chunkedbig":
 		body = valid()
-		if n, _ := strconv.Atoi(s.cfg["maxreq"]); n > 0 && len(body) <= n {
+		if n, _ := strconv.Atoi(s.cfg["maxreq"]); n > 0 && n <= 1<<20 && len(body) <= n {
 			body = append(body, bytes.Repeat([]byte{0}, n+1-len(body))...)
 		}
 		chunked = kind == "chunkedbig"
@@ -546,6 +546,18 @@ func c20Request(c *Case, s *c20Server, line, verb, path string, kv map[string]st
 		opt("vgi-externalization-enabled"), capsS, exposeS))
 	c.Stat(fmt.Sprintf("status:%d", status))
 	c.Stat("kind:" + strings.SplitN(kind, ":", 2)[0])
+	for _, n := range []string{"vgi-session", "vgi-session-close", "x-vgi-rpc-error", "x-vgi-content-encoding", "content-encoding",
+		"vgi-auth-reason", "vgi-auth-proxy-required", "www-authenticate", "retry-after"} {
+		if _, ok := low[n]; ok {
+			c.Stat("resp-header:" + n)
+		}
+	}
+	for n := range low {
+		if strings.HasPrefix(n, "vgi-echo-") {
+			c.Stat("resp-header:vgi-echo-*")
+			break
+		}
+	}
 
 	// ---- the property, stated on the real response
 	where := fmt.Sprintf("%s %s -> %d (kind=%s inner=%s)", verb, path, status, kind, inner)
@@ -663,7 +675,7 @@ func c20RandCfg(r *Rng) c20Cfg {
 	k.dhook = r.Chance(40)
 	k.notfound = r.Chance(70)
 	pickN := func() int { return Pick(r, []int{0, 0, 1, 64, 700, 4096, 1 << 20, 1 << 40}) }
-	k.maxreq, k.maxresp, k.maxext, k.maxup = Pick(r, []int{0, 0, 1, 300, 900, 4096, 1 << 30}), pickN(), pickN(), pickN()
+	k.maxreq, k.maxresp, k.maxext, k.maxup = Pick(r, []int{0, 0, 1, 300, 900, 4096, 65536}), pickN(), pickN(), pickN()
 	if r.Chance(40) {
 		k.proxyhdrs = [][]string{{"x-proxy-user"}, {"x-a", "x-b"}}[r.Intn(2)]
 	}
@@ -744,7 +756,7 @@ func c20ReqLine(t c20Target, rid string, auth bool) string {
 
 func c20Gen(g *Gen) {
 	r := g.Rng
-	n := g.N(350, 4000)
+	n := g.N(1100, 9000)
 	for i := 0; i < n; i++ {
 		k := c20RandCfg(r)
 		lines := []string{k.line()}
@@ -756,7 +768,7 @@ func c20Gen(g *Gen) {
 		g.Case(lines...)
 	}
 	// sweep: every exit-path target once, on configurations with CORS on (and a few with the hook failing)
-	m := g.N(25, 400)
+	m := g.N(60, 600)
 	for i := 0; i < m; i++ {
 		k := c20RandCfg(r)
 		k.cors = true
